@@ -62,10 +62,11 @@ std::string nameFor(char L, int cls) {
     case 5: return "Q7";                                    // ill-formed
     case 6: return "";                                      // empty
     case 7: return std::string(1, L) + "3";
+    case 8: return std::string(1, L) + "11";                // longer than the usual names, and the old name is a prefix of it
     default: return "Z0";
   }
 }
-std::string nameDesc(int cls) { static const char* d[] = { "<L>7", "<L>1", "<L>2", "<L>9", "<other-letter>7", "Q7", "", "<L>3" }; return cls >= 0 && cls < 8 ? d[cls] : "?"; }
+std::string nameDesc(int cls) { static const char* d[] = { "<L>7", "<L>1", "<L>2", "<L>9", "<other-letter>7", "Q7", "", "<L>3", "<L>11" }; return cls >= 0 && cls < 9 ? d[cls] : "?"; }
 const std::vector<std::string> kTexts = {
   /*0*/ "", /*1*/ "t", /*2*/ "@{X1|nomn}", /*3*/ "@{D1|nomn}", /*4*/ "@{D2|nomn} \xCE\xB2", /*5*/ "\xD1\x82\xD0\xB5\xD1\x80\xD0\xBC \xE2\x84\xAC",
   /*6*/ "@{X1|plur}", /*7*/ "@{X9|nomn}", /*8*/ "@{X7|nomn} X1",
@@ -242,7 +243,7 @@ Alpha profileFor(const std::string& mode, char level) {
   Alpha a; a.name = mode + "-" + std::string(1, level);
   if (mode == "incr" || mode == "rename") {
     if (level == 'W') {        // DESIGN C07 alphabet
-      a.kinds = { 0, 1, 2, 3 }; a.defs = range(14); a.exprDefs = range(14); a.names = { 0, 1, 2, 4 };
+      a.kinds = { 0, 1, 2, 3 }; a.defs = range(14); a.exprDefs = range(14); a.names = { 0, 1, 2, 3, 4 };
       a.termTexts = { 0, 1, 2, 3, 4 }; a.defTexts = { 0, 1, 2, 3, 4 }; a.convs = { 0, 2 }; a.bulks = { 0, 1 };
     } else if (level == 'M') { // one representative per shortcut
       a.kinds = { 0, 1, 2 }; a.defs = { 0, 1, 2, 4, 12 }; a.exprDefs = { 1, 2, 3, 4, 6, 9, 13 }; a.names = { 0, 2 };
@@ -252,7 +253,7 @@ Alpha profileFor(const std::string& mode, char level) {
       a.termTexts = { 3 }; a.defTexts = {}; a.convs = {}; a.bulks = {}; a.move = false; a.seedSchemas = 2;
     }
     if (mode == "rename") {    // renaming always with substitution too; names that may be mentioned-but-missing
-      a.names = level == 'W' ? std::vector<int>{ 0, 2, 3, 4 } : std::vector<int>{ 0, 2, 3 };
+      a.names = level == 'W' ? std::vector<int>{ 0, 2, 3, 4, 8 } : std::vector<int>{ 0, 2, 3 };
       a.subst = { 1, 0 };
       if (level != 'W') { a.convs = { 2 }; a.termTexts = { 2, 7 }; a.defTexts = { 3 }; }
       else { a.convs = { 0, 2, 3 }; a.termTexts = { 0, 1, 2, 3, 7, 8 }; a.defTexts = { 0, 2, 3, 7 }; }
@@ -364,7 +365,7 @@ struct SchemaSys {
     auto add = [&](int k, int a = 0, int b = 0, int c = 0) { ops.push_back(Op{ k, a, b, c }); };
     const bool renamesOnly = finalOnlyRenamesAt >= 0 && o.depth >= finalOnlyRenamesAt;
     if (renamesOnly) {
-      for (int i = 0; i < n; ++i) for (int nm : { 0, 2, 3, 7 }) add(SETALIAS, i, nm, 1);
+      for (int i = 0; i < n; ++i) for (int nm : { 0, 2, 3, 8 }) add(SETALIAS, i, nm, 1);
       add(RESET);
       return ops;
     }
@@ -810,13 +811,13 @@ int main(int argc, char** argv) {
   }
   // counters "transitions" accumulate across profiles inside res.rep; BfsStats::transitions is cumulative per report
   res.states = states; res.transitions = res.rep.counters["transitions"]; res.traces_validated = res.transitions;
-  res.evaluations = res.rep.counters["evaluations"] + res.rep.counters["states_checked"] * (opt.mode == "rename" ? 0 : 0);
+  res.evaluations = res.rep.counters["evaluations"];
   if (opt.mode == "rename") res.distinct_nontrivial = res.rep.counters["nontrivial"]; else res.distinct_nontrivial = res.rep.counters["transitions_changing_state"];
   res.exhaustive = exhaustive; res.completed_bound = bounds; res.alphabet = alphabets;
   if (opt.mode == "incr") res.rule = "state = exact canonical dump of the RSForm (appendix D) reached by a history; in EVERY distinct state every constituent's status / typification / arguments / value class / AST2String / Graph().InputsFor and, when the term reference graph is acyclic, term.Nominal() and definition.Str() are compared with a fresh schema built by FromJSON(ToMinimalJSON(live)); whole documents compared as JSON values; non-trivial = transition whose operation changed the key";
   else if (opt.mode == "ident") res.rule = "invariants (unique uids / aliases, alias letter == kind, List() permutation of Core(), kind-group order, five tables + registries agree, no ghost vertices) in every distinct state; on every transition: refusal => exact key unchanged, erased constituent absent from every view, Erase / SetExpressionFor refused on tracked constituents; non-trivial = transition that changed the key";
   else if (opt.mode == "json") res.rule = "in every distinct state j1=ToJSON(o), o'=FromJSON(j1), j2=ToJSON(o'): j2==j1 as JSON values (array order significant), field-by-field content incl. manual forms as a map and tracking flags, embedded analysis of o' vs o, and CheckSchema(j1)==j1; non-trivial = transition that changed the key";
-  else res.rule = "every renaming operation (SetAliasFor with substitution to 4 candidate names per constituent, ResetAliases) applied in every reached state; textual clause compared unconditionally with an own whole-identifier renamer, structural clause (status, typification, arguments, value class, AST, dependency / reference edges, resolved texts) under the property's precondition; non-trivial = renaming that replaced >= 1 mention";
+  else res.rule = "every renaming operation (SetAliasFor with substitution to the names <L>7 <L>2 <L>9 <L>11 for every constituent, ResetAliases) applied in every reached state; textual clause compared unconditionally with an own whole-identifier renamer, structural clause (status, typification, arguments, value class, AST, dependency / reference edges, resolved texts) under the property's precondition; non-trivial = renaming that replaced >= 1 mention";
   res.assumptions = { "clang 14 + libstdc++ 12, ASan+UBSan build with asserts", "default TextProcessor (identity inflection)", "entity uids from hook H1 policies ascending / descending",
                       "definitions never put a LOGIC-typed global (axiom / theorem / predicate name) in term position (candidate #9 crash belongs to C03/C04)" };
   res.wall_s = now_s() - t0;
